@@ -139,11 +139,16 @@ func H_C04_graph() {
 	}
 	// payload of the root is arbitrary (one-octet ints in the quick tier: payload forms are C07's subject)
 	nodes[0].Id = vInt32("id")
-	if !thorough {
+	filler := vChoice("filler", 11)
+	// the thorough tier adds a richer edge menu (empty kid lists, two-entry maps) for three of the fillers and lets
+	// the payload take every int form with the first one; the full product of forms x fillers x rich edges (about
+	// 2 million paths) did not finish within the wall limit and is outside the claim
+	rich := thorough && (filler == 0 || filler == 5 || filler == 10) && vChoice("rich", 2) == 1
+	if !(thorough && filler == 0 && !rich) {
 		vAssume(nodes[0].Id >= 0)
 		vAssume(nodes[0].Id <= 40)
 	}
-	filler := vChoice("filler", 11)
+	thorough = rich
 	for _, n := range nodes {
 		zFiller(n, filler)
 	}
